@@ -82,7 +82,10 @@ def run(rep):
     # money (lines under configured and under exact rates)
     g = tlc("Gen_Money", "Gen_Money", workers=8, timeout=2400, env={"CONSTS": c06.consts()}, heap="8g")
     rep.add_tlc("Gen_Money", g)
+    zone_names = {k.upper() for k in render.config_json().get("timezones", {})}
     for gi, c in enumerate(sample([c for c in g.cases if c["kind"] == "line"], n, rep.seed + 2)):
+        if len(c["pre"]) == 1 and c["line"].get("target", "").upper() in zone_names:
+            continue         # Appendix B: a conversion target that is also a zone name (tmt, wst ...) is read as the zone (as in C06)
         pre = [{"op": "update_currency", "cur": p["cur"], "rate": c06.rate_float(p["q"])} for p in c["pre"]]
         for cfg in CFGS:
             rs = c06.renderings(c["line"], cfg, gi, False)
